@@ -161,6 +161,10 @@ def scope_reach(ctx, scopes):
     return cg.reachable(roots + imp), roots
 
 
+# about three quarters of the functions reachable on the pinned tree, per scope list
+FLOOR_REACH = {("enum_parser",): 200, ("lexical_parser", "fold"): 235, ("enum_formatter", "typst"): 170, ("typst",): 170}
+
+
 def rule_P_TABLE(ctx, scopes, floor_sites):
     """P-INV + P-TABLE + P-GUARD over the functions reachable from the scopes' entry points"""
     ctx.rule("P-INV", "inventory of every panic edge (MIR Assert terminators, calls into core::panicking / std::rt, diverging calls, listed "
@@ -229,7 +233,13 @@ def rule_P_TABLE(ctx, scopes, floor_sites):
         ctx.sample({"rule": "P-GUARD", "site": key, "guards": ent["need"][:2], "why": ent["why"]})
     ctx.extra["usize_add_overflow_sites_discharged_by_axiom"] = n_add
     ctx.extra["reachable_functions"] = len(reach)
-    ctx.floor("panic sites inventoried", n_sites, floor_sites)
+    # vacuity guard.  Fewer panic sites than reviewed is not a finding by itself (a rewrite that removes index operations makes the inventory
+    # smaller: control rf22-7); an inventory that finds NOTHING, or a scope that no longer reaches its functions, is -- the recognisers
+    # themselves are exercised by the canary crate on every run
+    ctx.extra.setdefault("instance_counts", {})["panic sites inventoried"] = n_sites
+    ctx.extra.setdefault("instance_counts", {})["panic sites reviewed for this scope (floor)"] = floor_sites
+    ctx.floor("panic sites inventoried", n_sites, 1)
+    ctx.floor("functions reachable from the scope's entry points", len(reach), FLOOR_REACH.get(tuple(scopes), 1))
     # external callees assumed total
     cg = mir.callgraph(f)
     ext = set()
